@@ -123,6 +123,10 @@ func (sh *SearchHistory) Save() error {
 
 // AddEntry adds a new search entry to the history
 func (sh *SearchHistory) AddEntry(query string, resultsCount int, context string, duration time.Duration) {
+	// The history is persisted as JSON, which cannot carry invalid UTF-8: normalise
+	// now, so that what is kept in memory is exactly what Save and Load give back.
+	query = strings.ToValidUTF8(query, "\uFFFD")
+
 	entry := SearchEntry{
 		Query:        query,
 		Timestamp:    time.Now(),
